@@ -8,7 +8,7 @@ pub(crate) const ID: &str = "ID";
 pub(crate) const NUMBER: &str = "Number";
 pub(crate) const TYPE: &str = "Type";
 pub(crate) const DESCRIPTION: &str = "Description";
-pub(super) const IDX: &str = "IDX";
+pub(crate) const IDX: &str = "IDX";
 
 pub trait Standard: AsRef<str> + FromStr {}
 
